@@ -372,6 +372,8 @@ func setStepper(c Case) stepper {
 	} else {
 		s = collection.NewUnmanagedSet()
 	}
+	var kept []any
+	var keptCopy []int64
 	return func(op []any) any {
 		switch op[0].(string) {
 		case "add":
@@ -403,11 +405,33 @@ func setStepper(c Case) stepper {
 		case "count":
 			return []any{"num", s.Count()}
 		case "keys":
+			res := s.Keys()
 			ks := []int64{}
-			for _, k := range s.Keys() {
+			for _, k := range res {
 				ks = append(ks, encodeKey(k))
 			}
-			return []any{"list", sorted(ks)}
+			// what an earlier Keys() returned is the caller's: later Adds/Removes must not show in
+			// it, and scribbling on a second result must change neither the first nor the set
+			stale := false
+			for i := range kept {
+				if encodeKey(kept[i]) != keptCopy[i] {
+					stale = true
+				}
+			}
+			scr := s.Keys()
+			for i := range scr {
+				scr[i] = "scribble"
+			}
+			for i := range res {
+				if encodeKey(res[i]) != ks[i] {
+					stale = true
+				}
+			}
+			kept, keptCopy = res, append([]int64(nil), ks...)
+			if stale {
+				return []any{"num", -424246}
+			}
+			return []any{"list", sorted(append([]int64{}, ks...))}
 		case "keysof":
 			ks := []int64{}
 			switch num(op[1]) {
@@ -614,26 +638,90 @@ func cbBusy(stack string) bool {
 	return false
 }
 
+// parked reports a wheel callback goroutine waiting in the executor's expiry gate
+func parked(stack string) bool {
+	return strings.Contains(stack, "expiryGate") && hx.Blocked(stack)
+}
+
+type expiryGate struct {
+	mu   sync.Mutex
+	hold chan struct{} // non-nil while expiry callbacks are being held back
+}
+
+func (g *expiryGate) expiryGate(key any) {
+	g.mu.Lock()
+	ch := g.hold
+	g.mu.Unlock()
+	if ch != nil {
+		<-ch
+	}
+}
+
 func runCacheW(c Case, out *Out) {
-	tk := &rticker{c: make(chan time.Time)}
-	timex.SetTickerHook(func(d time.Duration) timex.Ticker { return tk })
+	var tickers []*rticker
+	timex.SetTickerHook(func(d time.Duration) timex.Ticker {
+		tk := &rticker{c: make(chan time.Time)}
+		tickers = append(tickers, tk)
+		return tk
+	})
 	cache, err := newCache(c, time.Duration(c.ExpireMs)*time.Millisecond)
+	var decoy *collection.Cache
+	if err == nil && c.Twin {
+		// a second cache with a wheel of its own, fed other operations of the history and the same ticks
+		decoy, err = newCache(c, time.Duration(c.ExpireMs)*time.Millisecond)
+	}
 	timex.SetTickerHook(nil)
 	if err != nil {
 		out.Err = err.Error()
 		return
 	}
-	for _, op := range c.Ops {
-		if op[0].(string) == "tick" {
-			tk.c <- time.Now()
-		} else if r, _ := cacheOp(cache, op); r != nil {
-			out.Obs = append(out.Obs, r)
+	gate := &expiryGate{}
+	collection.VerifC16GateExpiry(cache, gate.expiryGate)
+	busy := func(stack string) bool { return cbBusy(stack) && !parked(stack) }
+	for i, op := range c.Ops {
+		switch op[0].(string) {
+		case "tick":
+			for _, tk := range tickers {
+				tk.c <- time.Now()
+			}
+		case "tick_hold": // the tick happens, the expiry callbacks it starts wait for "release"
+			gate.mu.Lock()
+			if gate.hold == nil {
+				gate.hold = make(chan struct{})
+			}
+			gate.mu.Unlock()
+			for _, tk := range tickers {
+				tk.c <- time.Now()
+			}
+		case "release":
+			gate.mu.Lock()
+			if gate.hold != nil {
+				close(gate.hold)
+				gate.hold = nil
+			}
+			gate.mu.Unlock()
+		default:
+			if r, _ := cacheOp(cache, op); r != nil {
+				out.Obs = append(out.Obs, r)
+			}
 		}
-		if !hx.Quiesce(cbBusy, 5*time.Second) {
+		if decoy != nil {
+			if d := c.Ops[(i*7+3)%len(c.Ops)]; !strings.HasPrefix(d[0].(string), "tick") && d[0].(string) != "release" {
+				cacheOp(decoy, d)
+			}
+		}
+		if !hx.Quiesce(busy, 5*time.Second) {
 			out.Err = "wheel callbacks did not quiesce"
 			return
 		}
 	}
+	// never leave callbacks parked
+	gate.mu.Lock()
+	if gate.hold != nil {
+		close(gate.hold)
+		gate.hold = nil
+	}
+	gate.mu.Unlock()
 }
 
 // ---- two concurrent Takes of one key, the first loader gated ----------------------------
